@@ -6,13 +6,14 @@ request  {"op":"run","eps":[[uid,name,pattern|null,mm]…],"geps":[[uid,lang,tar
   op  = ["reg_lang",uid,name,pattern|null,mm] | ["lang",name] | ["lang_keys"] | ["clear_langs"]
       | ["mm",name,kw] | ["files",f] | ["file",f] | ["mms_file",f] | ["mm_file",f,kw]
       | ["reg_gen",uid,lang,target] | ["gen",lang,target,any] | ["gen_keys"] | ["clear_gens"]
-answer   {"res":[r…],"live":[uid…],"glive":[uid…],"hits":[[j,i]…],"um":[[i,uid|null]…],"mms":[[i,[uid…]]…]}
+answer   {"res":[r…],"live":[uid…],"glive":[uid…],"hits":[[j,i]…],"um":[[i,uid|null]…],"mms":[[i,[uid…]]…],"own":[[i,uid|null]…]}
   `res` is the machine (`Reg.run`); the other fields are the *history-level* notions the C26 theorems are
   stated in, computed without the machine: `live` / `gLive` after the history; `hits` = pairs of request
   positions for which `C26_cache_hit_until` / `C26_cache_hit_file` say "if call j answered a meta-model,
   the argument-less call i answers the same object" (`sparesAll` over the calls in between); `um` = for
   every `mm_file` call the one live language accepting the file (`UniqueMatch`, `C26_mm_for_file`);
-  `mms` = for every `mms_file` call the live languages accepting the file (`C26_mms_for_file`)
+  `mms` = for every `mms_file` call the live languages accepting the file (`C26_mms_for_file`);
+  `own` = for every `mm` call the live language of that name up to case (`C26_cache_not_stale`, `C26_cache_fresh`)
   r   = ["unit"] | ["desc",uid,name,pattern|null] | ["descs",[[uid,name,pattern]…]] | ["keys",[k…]]
       | ["mm",m] | ["mms",[m…]] | ["gen",uid] | ["gkeys",[[l,t]…]] | ["reg_error"] | ["type_error"]
   m   = ["given",uid] | ["made",serial,by,kw]
@@ -128,7 +129,13 @@ def predictions (E : Env) (ops : List Op) : List (String × Json) :=
     match op with
     | .mmsForFile f => some (Json.arr #[toJson i, toJson ((l.filter (patMatches E f)).map (·.uid))])
     | _ => none
-  [("live", toJson ((live E ops).map (·.uid))), ("glive", toJson ((gLive E ops).map (·.uid))),
+  let own := at_.filterMap fun (i, op, l) =>
+    match op with
+    | .mmLang n _ =>
+      some (Json.arr #[toJson i, match l.find? (fun d => E.lower d.name == E.lower n) with
+                                 | some d => toJson d.uid | none => Json.null])
+    | _ => none
+  [("own", Json.arr own.toArray), ("live", toJson ((live E ops).map (·.uid))), ("glive", toJson ((gLive E ops).map (·.uid))),
    ("hits", Json.arr ((hitPairs E ops).map fun p => Json.arr #[toJson p.1, toJson p.2]).toArray),
    ("um", Json.arr um.toArray), ("mms", Json.arr mms.toArray)]
 
